@@ -104,6 +104,8 @@ func c03TblCase(r *Rand) string {
 	colNames := []string{"a", "b", "c", "d", "e", "f"}
 	if r.Chance(1, 5) {
 		colNames = []string{"10", "9", "", "é", "b,", "\"", "z"}
+	} else if r.Chance(1, 5) { // numeric column names (time buckets): `--sort-cols numeric` ranks 9 < 10 < 1e2, text ranks "10" < "1e2" < "9"
+		colNames = []string{"10", "9", "1e2", "-1", "1.0", "1", "x"}
 	}
 	nc := r.Range(1, len(colNames))
 	rows := []string{"w", "x", "", "y z"}[:r.Range(1, 4)]
@@ -143,8 +145,9 @@ func c03TblCase(r *Rand) string {
 	if len(renders) > 0 {
 		rs = strings.Join(renders, ",")
 	}
-	if r.Chance(1, 4) { // the whole guard: value-ordered spellings never trim, text spellings trim
-		sc := Pick(r, []string{"value", "VALUE", "Value:asc", "vALUE:DESC", "value:rev", "VALUE:Reverse", "text", "TEXT", "Text:ASC", "text:asc"})
+	if r.Chance(1, 3) { // the whole guard: value-ordered spellings never trim; text / numeric spellings trim by THEIR order
+		sc := Pick(r, []string{"value", "VALUE", "Value:asc", "vALUE:DESC", "value:rev", "VALUE:Reverse", "text", "TEXT", "Text:ASC", "text:asc",
+			"numeric", "numeric", "NUMERIC", "Numeric:desc", "numeric:rev", "text:desc", "TEXT:Reverse", "text:rev", "numeric:asc"})
 		return fmt.Sprintf("tbl %s %d %s %s %s", HexS(delim), ncols, HexListS(samples), rs, HexS(sc))
 	}
 	return fmt.Sprintf("tbl %s %d %s %s", HexS(delim), ncols, HexListS(samples), rs)
@@ -207,7 +210,13 @@ func c03TblStats(f []string, st map[string]int) {
 	}
 	if len(f) > 5 {
 		st["tbl.sortCols"]++
-		if sc := string(UnHex(f[5])); helpers.SortsByValue(strings.ToLower(sc)) {
+		sc := string(UnHex(f[5]))
+		if lc := strings.ToLower(sc); strings.HasPrefix(lc, "numeric") {
+			st["tbl.sortCols.numeric"]++
+		} else if strings.HasSuffix(lc, ":desc") || strings.HasSuffix(lc, ":rev") || strings.HasSuffix(lc, ":reverse") {
+			st["tbl.sortCols.reversed"]++
+		}
+		if helpers.SortsByValue(strings.ToLower(sc)) {
 			st["tbl.sortCols.value"]++
 			if sc != strings.ToLower(sc) {
 				st["tbl.sortCols.value.upperCase"]++
@@ -217,6 +226,11 @@ func c03TblStats(f []string, st map[string]int) {
 }
 
 var c03TblCorpus = []string{
+	// --sort-cols numeric keeps column 10 (9 < 10), text keeps column 9 ("10" < "9"), text:desc keeps 10; render after the 2nd sample
+	"tbl 00 1 31300072;390072;31300072 2 6e756d65726963",
+	"tbl 00 1 31300072;390072;31300072 2 74657874",
+	"tbl 00 1 31300072;390072;31300072 2 746578743a64657363",
+	"tbl 00 1 390072;31300072;390072 1,2 4e554d455249433a726576",
 	// Sample(b x); Sample(a w); render (--cols 1: column a goes, row w with it); Sample(b w): w is a fresh row
 	"tbl 00 1 620078;610077;620077 2",
 	"tbl 00 1 620078;610077;620077;620077 2,3",
